@@ -579,6 +579,7 @@ class DeserializationMethodVisitor(
                 self.aliaser,
                 settings.errors.missing_property,
                 settings.errors.unexpected_property,
+                not self.no_copy,
             )
             if other_validators:
                 method = ValidatorMethod(method, other_validators, self.aliaser)
